@@ -50,6 +50,14 @@ pub struct SeqCase {
     pub pool_log2: u8,
     pub buf_size: u16,
     pub steps: Vec<PStep>,
+    /// Buffers of `buf_size << big_shift` bytes (up to 2 GiB each, a pool of
+    /// more than 4 GiB; address space only, the kernel writes a few KiB).
+    #[serde(default)]
+    pub big_shift: u8,
+    /// Complete read -> ReadBuf -> give back cycles before the steps (walks
+    /// the ring through the buffer ids).
+    #[serde(default)]
+    pub pre_cycles: u8,
 }
 
 /// C08b: ReadBufs released concurrently from several threads while the kernel
@@ -276,7 +284,8 @@ impl<'c> Exec<'c> {
                         self.fail("selected-owned-buffer", format!("the kernel was offered buffer {} which is {:?}", entry.bid, other));
                     }
                 }
-                let n = ((frac as usize) * (self.buf_size + 1)) >> 16;
+                // (Huge buffers only get their first pages written.)
+                let n = ((frac as usize) * (self.buf_size.min(8192) + 1)) >> 16;
                 let data: Vec<u8> = (0..n).map(|j| byte(serial as usize + self.releases as usize, j)).collect();
                 unsafe { std::ptr::copy_nonoverlapping(data.as_ptr(), entry.addr as *mut u8, n) };
                 self.owner.insert(entry.bid, Owner::InCompletion);
@@ -427,6 +436,9 @@ impl<'c> Exec<'c> {
             return;
         }
         self.releases += 1;
+        if bid as u64 * self.buf_size as u64 > u32::MAX as u64 {
+            self.classes.push("gave-back-buffer-beyond-4GiB");
+        }
         let after = sim::sim().the_ring().offered_buffers(self.bgid);
         let new: Vec<u16> = after.iter().skip(before.len()).map(|e| e.bid).collect();
         if new != [bid] {
@@ -464,10 +476,11 @@ impl Property for C08 {
     type Case = Case;
 
     fn strategy(_tier: Tier) -> BoxedStrategy<Case> {
-        let seq = (prop_oneof![4 => 0u8..=3, 1 => 4u8..=6], prop_oneof![1 => 1u16..8, 4 => 1u16..300, 1 => 4000u16..4096], proptest::collection::vec(pstep(), 0..80)).prop_map(|(pool_log2, buf_size, steps)| Case::Seq(SeqCase { pool_log2, buf_size, steps }));
+        let seq = (prop_oneof![4 => 0u8..=3, 1 => 4u8..=6], prop_oneof![1 => 1u16..8, 4 => 1u16..300, 1 => 4000u16..4096], proptest::collection::vec(pstep(), 0..80), prop_oneof![3 => Just(0u8), 1 => 0u8..=40]).prop_map(|(pool_log2, buf_size, steps, pre_cycles)| Case::Seq(SeqCase { pool_log2, buf_size, steps, big_shift: 0, pre_cycles }));
+        let big = (1u8..=3, 2048u16..=4096, 17u8..=19, proptest::collection::vec(pstep(), 0..60), 0u8..=12).prop_map(|(pool_log2, buf_size, big_shift, steps, pre_cycles)| Case::Seq(SeqCase { pool_log2, buf_size, steps, big_shift, pre_cycles }));
         let sched = (0u8..=3, 1u16..64, 1u8..=8, 0u8..=9, proptest::collection::vec(1u8..=3, 1..=3), 0u8..=4, proptest::collection::vec(any::<u16>(), 0..80))
             .prop_map(|(pool_log2, buf_size, take, pre_cycles, releasers, kernel_selects, pool_tape)| Case::Sched(PoolSched { pool_log2, buf_size, take, pre_cycles, releasers, kernel_selects, pool_tape }));
-        prop_oneof![3 => seq, 1 => sched].boxed()
+        prop_oneof![9 => seq, 1 => big, 3 => sched].boxed()
     }
 
     fn cases(tier: Tier) -> u32 {
@@ -488,7 +501,7 @@ impl Property for C08 {
             return;
         }
         let cycles = tier.pick(70_000u32, 200_000);
-        let case = SeqCase { pool_log2: if shard == 0 { 0 } else { 2 }, buf_size: 16, steps: vec![] };
+        let case = SeqCase { pool_log2: if shard == 0 { 0 } else { 2 }, buf_size: 16, steps: vec![], big_shift: 0, pre_cycles: 0 };
         let mut ctx = Ctx::new("C08", known, tier);
         run_case(&case, &mut ctx, cycles);
         out.evaluations += 1;
@@ -509,7 +522,7 @@ impl Property for C08 {
     }
 
     fn rule() -> &'static str {
-        "proptest histories over pools of 1..64 buffers of 1..4096 bytes: single-shot and multishot pool reads/receives are started, polled, completed by the simulated kernel (which selects buffers from the ring exactly as K8 prescribes, incl. ENOBUFS and errors), dropped in flight; ReadBufs are edited, released (twice), dropped, dropped on another thread, re-read into; pool handles cloned/dropped. Ownership model bid -> Kernel | InCompletion | Owned(readbuf): every ring entry is well formed, never names an owned buffer, no bid is offered twice, a ReadBuf's bytes never change except by its own edits, release/drop offers exactly that bid exactly once, and at the end (no ReadBuf alive, nothing in flight) every buffer is offered again. Plus a long variant with > 65 536 release cycles (16-bit tail wrap). C08b (1 of 4 cases): after 0..9 sequential take/release cycles (so that the release under test writes ring slot 0 in some cases) 1..8 buffers are taken, then 1..3 releaser threads drop their ReadBufs while a kernel thread performs 0..4 buffer selections, all under the baton scheduler (scheduling points at the pool lock, the ring-tail load and before/after the ring-tail store) following a generated tape; oracle: the kernel never gets a buffer a live ReadBuf owns nor the same buffer twice, every selected entry is well formed, and afterwards every released buffer is offered exactly once. Non-trivial (scheduled) = a context switch inside a10 with concurrent releases or kernel selections. Non-trivial = all buffers were owned at once (ENOBUFS), or a pool read completed after its future was dropped, or the tail wrapped, or a buffer was dropped on another thread. Distinct = (pool class, classes, 16-bit case hash)."
+        "proptest histories over pools of 1..64 buffers of 1..4096 bytes (one case in thirteen: 2..8 buffers of 256 MiB..2 GiB, pools beyond 4 GiB, address space only): single-shot and multishot pool reads/receives are started, polled, completed by the simulated kernel (which selects buffers from the ring exactly as K8 prescribes, incl. ENOBUFS and errors), dropped in flight; ReadBufs are edited, released (twice), dropped, dropped on another thread, re-read into; pool handles cloned/dropped. Ownership model bid -> Kernel | InCompletion | Owned(readbuf): every ring entry is well formed, never names an owned buffer, no bid is offered twice, a ReadBuf's bytes never change except by its own edits, release/drop offers exactly that bid exactly once, and at the end (no ReadBuf alive, nothing in flight) every buffer is offered again. Plus a long variant with > 65 536 release cycles (16-bit tail wrap). C08b (1 of 4 cases): after 0..9 sequential take/release cycles (so that the release under test writes ring slot 0 in some cases) 1..8 buffers are taken, then 1..3 releaser threads drop their ReadBufs while a kernel thread performs 0..4 buffer selections, all under the baton scheduler (scheduling points at the pool lock, the ring-tail load and before/after the ring-tail store) following a generated tape; oracle: the kernel never gets a buffer a live ReadBuf owns nor the same buffer twice, every selected entry is well formed, and afterwards every released buffer is offered exactly once. Non-trivial (scheduled) = a context switch inside a10 with concurrent releases or kernel selections. Non-trivial = all buffers were owned at once (ENOBUFS), or a pool read completed after its future was dropped, or the tail wrapped, or a buffer was dropped on another thread. Distinct = (pool class, classes, 16-bit case hash)."
     }
 
     fn assumptions() -> Vec<&'static str> {
@@ -526,14 +539,21 @@ fn run_case(case: &SeqCase, ctx: &mut Ctx, long_cycles: u32) {
         }
     };
     let fd = world.new_fd();
-    let pool_size: u16 = 1 << case.pool_log2.min(6);
-    let buf_size = case.buf_size.clamp(1, 4096) as usize;
+    let big_shift = case.big_shift.min(19);
+    let pool_size: u16 = 1 << case.pool_log2.min(if big_shift > 0 { 3 } else { 6 });
+    let buf_size = (case.buf_size.clamp(1, 4096) as usize) << big_shift;
     let pool = {
         let _s = track::scope(track::TAG_A10);
         ReadBufPool::new(world.sq(), pool_size, buf_size as u32)
     };
     let pool = match pool {
         Ok(p) => p,
+        Err(e) if big_shift > 0 && e.kind() == std::io::ErrorKind::OutOfMemory => {
+            // No address space for a pool of several GiB: nothing to decide.
+            ctx.skipped_steps += 1;
+            ctx.class("big-pool-not-allocatable");
+            return;
+        }
         Err(e) => {
             ctx.infra(format!("ReadBufPool::new failed: {e}"));
             return;
@@ -569,6 +589,7 @@ fn run_case(case: &SeqCase, ctx: &mut Ctx, long_cycles: u32) {
     };
     exec.invariants("pool creation");
 
+    let long_cycles = long_cycles + case.pre_cycles as u32;
     if long_cycles > 0 {
         // read -> complete -> poll -> drop, over and over.
         for cycle in 0..long_cycles {
@@ -578,10 +599,14 @@ fn run_case(case: &SeqCase, ctx: &mut Ctx, long_cycles: u32) {
             step(&mut exec, &PStep::Start(ReadKind::Read));
             step(&mut exec, &PStep::Poll { op: u16::MAX });
             step(&mut exec, &PStep::RingPoll);
-            step(&mut exec, &PStep::Complete { op: u16::MAX, frac: (cycle % 60000) as u16, more: false, fail: false });
+            step(&mut exec, &PStep::Complete { op: u16::MAX, frac: ((cycle as u64 * 40_503) % 65_536) as u16, more: false, fail: false });
             step(&mut exec, &PStep::RingPoll);
             step(&mut exec, &PStep::Poll { op: u16::MAX });
-            step(&mut exec, &PStep::DropBuf { buf: u16::MAX, on_thread: false });
+            if cycle % 3 == 1 {
+                step(&mut exec, &PStep::Release { buf: u16::MAX });
+            } else {
+                step(&mut exec, &PStep::DropBuf { buf: u16::MAX, on_thread: false });
+            }
             // Keep the tables small.
             exec.ops.retain(|o| !o.done);
             if exec.bufs.len() > 64 {
@@ -596,13 +621,12 @@ fn run_case(case: &SeqCase, ctx: &mut Ctx, long_cycles: u32) {
             sim::sim().the_ring().gc();
             sim::sim().the_ring().posted.clear();
         }
-    } else {
-        for s in &case.steps {
-            if exec.stop {
-                break;
-            }
-            step(&mut exec, s);
+    }
+    for s in &case.steps {
+        if exec.stop {
+            break;
         }
+        step(&mut exec, s);
     }
 
     // End of history: drop all futures, let the kernel finish what is in
@@ -664,13 +688,16 @@ fn run_case(case: &SeqCase, ctx: &mut Ctx, long_cycles: u32) {
         drop(pools);
         drop(world);
     }
+    if buf_size as u64 * pool_size as u64 > u32::MAX as u64 {
+        classes.push("pool-beyond-4GiB");
+    }
     classes.sort();
     classes.dedup();
     for c in &classes {
         ctx.class(c);
     }
-    ctx.nontrivial = classes.iter().any(|c| matches!(*c, "enobufs" | "completed-after-drop" | "tail-wrapped" | "dropped-on-thread"));
-    ctx.fingerprint = format!("pool{}x{}|{}|{:x}", pool_size, if buf_size < 8 { "tiny" } else if buf_size < 1000 { "small" } else { "page" }, classes.join("|"), crate::common::fnv(&format!("{case:?}")) & 0xffff);
+    ctx.nontrivial = classes.iter().any(|c| matches!(*c, "enobufs" | "completed-after-drop" | "tail-wrapped" | "dropped-on-thread" | "pool-beyond-4GiB"));
+    ctx.fingerprint = format!("pool{}x{}|{}|{:x}", pool_size, if buf_size < 8 { "tiny" } else if buf_size < 1000 { "small" } else if buf_size <= 4096 { "page" } else { "huge" }, classes.join("|"), crate::common::fnv(&format!("{case:?}")) & 0xffff);
 }
 
 fn step(exec: &mut Exec<'_>, s: &PStep) {
